@@ -1070,6 +1070,37 @@ func genC07Targeted(g *Gen, tier string, w *bufio.Writer, begin string) {
 			fmt.Fprintln(w, "setv b 0 e")
 			fmt.Fprintln(w, "hcount r")
 		}
+		// root requests on nested sub-views and on a copy change nothing: the root view stays hashed
+		fmt.Fprintln(w, "obs e")
+		fmt.Fprintln(w, "obs a")
+		fmt.Fprintln(w, "hcount r")
+		fmt.Fprintln(w, "copy c r")
+		fmt.Fprintln(w, "obs c")
+		fmt.Fprintln(w, "hcount r")
+		fmt.Fprintln(w, "hcount c")
+		// an element bound next to itself / a sibling bound over its neighbour (already hashed values)
+		if len(v.Seq[0].Seq) >= 2 {
+			fmt.Fprintln(w, "get e1 a 1")
+			fmt.Fprintln(w, "setv a 0 e1")
+			fmt.Fprintln(w, "hcount r")
+		}
+		// the copy is untouched by changes of the original
+		fmt.Fprintf(w, "set r 2 %s\n", g.RandVal(u64, 1))
+		fmt.Fprintln(w, "hcount r")
+		fmt.Fprintln(w, "hcount c")
 		fmt.Fprintln(w, "obs r")
+	}
+	// default vectors of composites (all slots share one node): a write through a sub-view
+	dv := &Ty{Kind: KVector, N: 4, Elem: inner}
+	for rep := 0; rep < 3; rep++ {
+		fmt.Fprintln(w, begin)
+		fmt.Fprintf(w, "mk r def %s\n", dv)
+		fmt.Fprintln(w, "hcount r")
+		fmt.Fprintf(w, "get e r %d\n", rep)
+		fmt.Fprintf(w, "set e 1 %s\n", g.RandVal(u64, 1))
+		fmt.Fprintln(w, "hcount r")
+		fmt.Fprintf(w, "get f r %d\n", rep+1)
+		fmt.Fprintf(w, "setv r %d f\n", rep) // the neighbour's (shared default) node bound beside itself
+		fmt.Fprintln(w, "hcount r")
 	}
 }
